@@ -428,7 +428,9 @@ def replay(path):
         if exe is None: print('harness does not compile:', cerr); return 1
         exes[h] = exe
     S = runner.Session(dict(P, wrap=rp.get('wrapper')) if rp.get('configuration') else P, pid, exes)
-    impl, ms, aborts, verdicts, _ = S.evaluate([rp['case']])
+    ctx = rp.get('context') or []
+    if ctx: print('context: %d earlier case(s) run first in the same process' % len(ctx))
+    impl, ms, aborts, verdicts, _ = S.evaluate(ctx + [rp['case']])
     c = rp['case']
     Il, M, Sp = triples(c, impl.get(c, []), ms.get(c, []))
     ops = [o.strip() for o in c.split(':', 1)[1].split(';') if o.strip()]
